@@ -1,8 +1,11 @@
 package main
 
 import (
+	"encoding/json"
 	"fmt"
 	"go/types"
+	"os"
+	"reflect"
 	"strconv"
 	"strings"
 
@@ -31,6 +34,41 @@ func (x *Exec) libStub(fn *ssa.Function, args []Val, site string) (Val, bool) {
 			}
 		}
 		panic(unsupported{"encoding/json.Marshal of a non-empty value"})
+	case "encoding/json.Valid":
+		// the real encoding/json, natively, on the concretised text
+		bs := types.NewSlice(types.Typ[types.Byte])
+		txt := x.concStr(x.convert(args[0], bs, types.Typ[types.String]).(StrV), 128, "json.Valid text")
+		x.stubsUsed["encoding/json.Valid (real encoding/json, natively, on concretised text)"] = true
+		return cbool(json.Valid([]byte(txt))), true
+	case "encoding/json.Unmarshal":
+		// only texts denoting an empty list or an empty map (what a two-byte default can spell)
+		bs := types.NewSlice(types.Typ[types.Byte])
+		txt := x.concStr(x.convert(args[0], bs, types.Typ[types.String]).(StrV), 128, "json.Unmarshal text")
+		var nat any
+		if err := json.Unmarshal([]byte(txt), &nat); err != nil {
+			return x.opaqueErr(), true
+		}
+		dst, _ := args[1].(IfaceV)
+		p, okp := dst.V.(PtrV)
+		if okp && p.C != nil {
+			switch nv := nat.(type) {
+			case []any:
+				if len(nv) == 0 {
+					if sl, isSl := p.C.V.(SliceV); isSl && sl.A != nil && sl.Len == 0 {
+						x.stubsUsed["encoding/json.Unmarshal (empty list/map only)"] = true
+						return IfaceV{}, true // destination already holds an empty non-nil list: json keeps it, length 0
+					}
+				}
+			case map[string]any:
+				if len(nv) == 0 {
+					if m, isM := p.C.V.(*MapV); isM && m != nil && len(m.Ent) == 0 {
+						x.stubsUsed["encoding/json.Unmarshal (empty list/map only)"] = true
+						return IfaceV{}, true
+					}
+				}
+			}
+		}
+		panic(unsupported{"encoding/json.Unmarshal of a non-empty value"})
 	case "github.com/mitchellh/mapstructure.NewDecoder":
 		// contract stub: the decoder is represented by its configuration
 		x.stubsUsed["mapstructure.Decoder (contract stub: scalar conversions of WeaklyTypedInput only)"] = true
@@ -83,13 +121,47 @@ func (x *Exec) libStub(fn *ssa.Function, args []Val, site string) (Val, bool) {
 	// ---- go-playground/validator: verdict = uninterpreted function of (value, constraint text),
 	// except required/min/max on strings, which are modelled (length of an ASCII string)
 	case "github.com/go-playground/validator/v10.New":
-		return PtrV{C: &Cell{V: cbv(64, 0)}}, true
+		// the handle records which options it was built with (bit 0: WithRequiredStructEnabled)
+		h := PtrV{C: &Cell{V: cbv(64, 0)}}
+		for _, o := range sliceVals(args[0]) {
+			fv, ok := o.(FuncV)
+			if !ok || fv.Tag != "validator.WithRequiredStructEnabled" {
+				panic(unsupported{"validator.New with an option other than WithRequiredStructEnabled"})
+			}
+			h.C.V = cbv(64, 1)
+		}
+		return h, true
 	case "github.com/go-playground/validator/v10.WithRequiredStructEnabled":
-		return FuncV{Native: func(x *Exec, a []Val) Val { return nil }}, true
+		return FuncV{Native: func(x *Exec, a []Val) Val { return nil }, Tag: "validator.WithRequiredStructEnabled"}, true
 	case "(*github.com/go-playground/validator/v10.Validate).Var":
 		return x.validatorVerdict(args[1].(IfaceV), args[2].(StrV)), true
 	case "(*github.com/go-playground/validator/v10.Validate).Struct":
-		return x.validatorVerdict(args[1].(IfaceV), cstr("<struct>")), true
+		// concrete struct value: rebuilt natively (reflect.StructOf with the declared field tags) and
+		// decided by the real validator configured with the handle's options
+		iv := args[1].(IfaceV)
+		reqStruct := false
+		if hp, ok := args[0].(PtrV); ok && hp.C != nil {
+			if b, ok := hp.C.V.(BV); ok && b.Con && b.C == 1 {
+				reqStruct = true
+			}
+		}
+		if iv.T != nil {
+			rv, ok := x.nativeValue(iv.T, iv.V, 0)
+			if os.Getenv("VERIF_DEBUG_VALIDATOR") != "" {
+				fmt.Fprintf(os.Stderr, "DEBUG validator.Struct val=%T %#v reqStruct=%v type=%v native=%v\n", iv.V, iv.V, reqStruct, iv.T, ok)
+			}
+			if ok {
+				x.stubsUsed["validator.Struct (real go-playground/validator, natively, on a concrete struct rebuilt with reflect.StructOf)"] = true
+				if err := nativeValidateStruct(rv.Interface(), reqStruct); err != nil {
+					if _, isPanic := err.(errPanicInValidator); isPanic {
+						panic(panicV{msg: "validator panicked on a struct"})
+					}
+					return x.opaqueErr(), true
+				}
+				return IfaceV{}, true
+			}
+		}
+		return x.validatorVerdict(iv, cstr(fmt.Sprintf("<struct,%v>", reqStruct))), true
 	case modelsPath + ".Unmodelled":
 		s, _ := args[0].(StrV).concrete()
 		panic(unsupported{"model gap: " + s})
@@ -330,4 +402,117 @@ func (x *Exec) validatorVerdict(val IfaceV, tag StrV) Val {
 		return x.opaqueErr()
 	}
 	return IfaceV{}
+}
+
+// nativeValue rebuilds a fully concrete engine value of type t as a native Go value (strings,
+// integers, booleans, structs of those with their declared tags, pointers to structs).
+func (x *Exec) nativeValue(t types.Type, v Val, depth int) (reflect.Value, bool) {
+	if depth > 6 {
+		return reflect.Value{}, false
+	}
+	switch u := t.Underlying().(type) {
+	case *types.Basic:
+		switch {
+		case u.Kind() == types.String:
+			sv, ok := v.(StrV)
+			if !ok {
+				return reflect.Value{}, false
+			}
+			c, ok := sv.concrete()
+			if !ok {
+				return reflect.Value{}, false
+			}
+			return reflect.ValueOf(c), true
+		case u.Kind() == types.Bool:
+			b, ok := v.(BoolV)
+			if !ok || !b.Con {
+				return reflect.Value{}, false
+			}
+			return reflect.ValueOf(b.C), true
+		case u.Info()&types.IsInteger != 0:
+			b, ok := v.(BV)
+			if !ok || !b.Con {
+				return reflect.Value{}, false
+			}
+			if _, signed, _ := bvWidth(t); signed {
+				return reflect.ValueOf(int(sext(b))), true
+			}
+			return reflect.ValueOf(uint(b.C)), true
+		}
+	case *types.Pointer:
+		p, ok := v.(PtrV)
+		if !ok {
+			return reflect.Value{}, false
+		}
+		if _, isStruct := u.Elem().Underlying().(*types.Struct); !isStruct {
+			return reflect.Value{}, false
+		}
+		if p.C == nil {
+			// typed nil pointer: the element type is still needed
+			zero, ok := x.nativeZeroType(u.Elem(), depth+1)
+			if !ok {
+				return reflect.Value{}, false
+			}
+			return reflect.Zero(reflect.PointerTo(zero)), true
+		}
+		ev, ok := x.nativeValue(u.Elem(), p.C.V, depth+1)
+		if !ok {
+			return reflect.Value{}, false
+		}
+		pv := reflect.New(ev.Type())
+		pv.Elem().Set(ev)
+		return pv, true
+	case *types.Struct:
+		var sv StructV
+		switch t := v.(type) {
+		case StructV:
+			sv = t
+		case *StructV:
+			if t == nil {
+				return reflect.Value{}, false
+			}
+			sv = *t
+		default:
+			return reflect.Value{}, false
+		}
+		if len(sv.F) != u.NumFields() {
+			return reflect.Value{}, false
+		}
+		var fields []reflect.StructField
+		var vals []reflect.Value
+		for i := 0; i < u.NumFields(); i++ {
+			f := u.Field(i)
+			if !f.Exported() || f.Embedded() {
+				if f.Embedded() {
+					return reflect.Value{}, false
+				}
+				continue // the validator skips unexported fields
+			}
+			fv, ok := x.nativeValue(f.Type(), sv.F[i].V, depth+1)
+			if !ok {
+				return reflect.Value{}, false
+			}
+			fields = append(fields, reflect.StructField{Name: f.Name(), Type: fv.Type(), Tag: reflect.StructTag(u.Tag(i))})
+			vals = append(vals, fv)
+		}
+		st := reflect.New(reflect.StructOf(fields)).Elem()
+		for i, fv := range vals {
+			st.Field(i).Set(fv)
+		}
+		return st, true
+	}
+	return reflect.Value{}, false
+}
+
+func (x *Exec) nativeZeroType(t types.Type, depth int) (reflect.Type, bool) {
+	u, ok := t.Underlying().(*types.Struct)
+	if !ok {
+		return nil, false
+	}
+	_ = u
+	rv, ok := x.nativeValue(t, x.zero(t), depth)
+	if !ok {
+		return nil, false
+	}
+	return rv.Type(), true
 }
